@@ -370,6 +370,9 @@ func (g *G) genC02(p *Plan) {
 			op = Op{K: "mkbucket", B: bkt()}
 		case r < 86:
 			op = Op{K: "rmbucket", B: bkt()}
+			if g.chance(0.15) {
+				op.Status = "force"
+			}
 		case r < 89:
 			op = Op{K: "headbucket", B: bkt()}
 		case r < 92:
